@@ -940,10 +940,11 @@ pub fn tnv(out: &mut Vec<u8>, tag: u8, name: &[u8], val: &[u8]) {
     out.extend_from_slice(val);
 }
 
-pub const FAMILIES: [&str; 23] = [
+pub const FAMILIES: [&str; 27] = [
     "nest", "nest-noname", "set-width", "attr-count", "group-count", "member-count", "value-len", "name-len", "unterminated", "endcoll-flood",
     "member-flood", "addl-no-attr", "coll-set", "nest-multi", "name-invalid-utf8", "value-invalid-utf8", "member-count-desc", "member-count-shuffled",
-    "attr-count-desc", "wide-then-many", "set-width-mixed", "member-width-mixed", "set-width-strings",
+    "attr-count-desc", "wide-then-many", "set-width-mixed", "member-width-mixed", "set-width-strings", "attr-same-name", "attr-few-names",
+    "set-width-novalue", "member-same-name",
 ];
 
 /// input family `fam` with about `n` bytes of attribute data
@@ -1016,6 +1017,34 @@ pub fn family(fam: &str, n: usize) -> Vec<u8> {
             if fam == "member-width-mixed" {
                 tnv(&mut v, 0x37, b"", b"");
             }
+        }
+        // very many attributes sharing one name / cycling through three names (repeated names are well-formed wire input)
+        "attr-same-name" | "attr-few-names" => {
+            for i in 0..(n / 17) {
+                let name = if fam == "attr-same-name" { "samename".to_string() } else { format!("name{:04}", i % 3) };
+                tnv(&mut v, 0x21, name.as_bytes(), &(i as u32).to_be_bytes());
+            }
+        }
+        // a wide set that starts with thousands of out-of-band no-value entries, integers behind them
+        "set-width-novalue" => {
+            tnv(&mut v, 0x13, b"s", b"");
+            let k = n / 5;
+            for i in 0..k {
+                if i < k * 3 / 4 {
+                    tnv(&mut v, 0x13, b"", b"");
+                } else {
+                    tnv(&mut v, 0x21, b"", &[0, 0, 0, 1]);
+                }
+            }
+        }
+        // one collection whose members all carry the same name
+        "member-same-name" => {
+            tnv(&mut v, 0x34, b"c", b"");
+            for i in 0..(n / 23) {
+                tnv(&mut v, 0x4a, b"", b"samename");
+                tnv(&mut v, 0x21, b"", &(i as u32).to_be_bytes());
+            }
+            tnv(&mut v, 0x37, b"", b"");
         }
         "set-width-strings" => {
             tnv(&mut v, 0x44, b"s", b"k");
